@@ -127,4 +127,19 @@ def notions : List (Kind × UpTo) :=
   [(.core, .none), (.core, .any), (.core, .one), (.strong, .none),
    (.ejr, .none), (.ejr, .any), (.ejr, .one), (.pjr, .none), (.pjr, .any), (.pjr, .one)]
 
+/-! ### the enumeration of cohesive groups (pabutools/analysis/cohesiveness.py: `cohesive_groups`) -/
+
+/-- `cohesive_groups(instance, profile)`: the double loop `for group in powerset(profile): for project_set in
+    powerset(instance)` keeping the pairs that pass `is_cohesive_approval` (approval) / `is_cohesive_cardinal` with
+    `alpha = min over the group` (cardinal) — the admissibility test of the EJR-type checkers.  Groups are sub-lists of the
+    profile's entries (ballot, multiplicity); their size is the sum of the multiplicities. -/
+def cohesiveGroups (E : Setting) (M : List (Voter × Nat)) (card : Bool) : List (List (Voter × Nat) × List Pid) :=
+  (sublists M).flatMap (fun D =>
+    ((sublists E.projects).filter (fun T => adm E card .ejr (groupSize D) (members D) T)).map (fun T => (D, T)))
+
+/-- the same enumeration over entries that carry a tag (their position in the profile, say): `vo` reads the entry -/
+def cohesiveGroupsBy {α : Type} (E : Setting) (card : Bool) (vo : α → Voter × Nat) (M : List α) : List (List α × List Pid) :=
+  (sublists M).flatMap (fun D =>
+    ((sublists E.projects).filter (fun T => adm E card .ejr (groupSize (D.map vo)) (members (D.map vo)) T)).map (fun T => (D, T)))
+
 end Pabu.JR
